@@ -8,6 +8,8 @@ use std::path::Path;
 pub struct Stage {
     pub world: &'static str,
     pub runs: u64,
+    /// true: the stage enumerates the world's fault sweep completely instead of sampling
+    pub sweep: bool,
 }
 
 /// Dispatch on the world name to its type.
@@ -82,6 +84,10 @@ macro_rules! with_world {
                 type $W = crate::iterworld::IterWorld<crate::worlds::ranges::RangeFam<char>>;
                 $body
             }
+            "byvalue" => {
+                type $W = crate::worlds::byvalue::ByValueWorld;
+                $body
+            }
             "chars" => {
                 type $W = crate::iterworld::IterWorld<crate::worlds::chars::CharFam>;
                 $body
@@ -102,10 +108,14 @@ fn runs_override(default: u64) -> u64 {
 
 pub fn stages_for(prop: &str, tier: Tier) -> Option<Vec<Stage>> {
     let q = tier == Tier::Quick;
-    let st = |world: &'static str, quick: u64, thorough: u64| Stage { world, runs: runs_override(if q { quick } else { thorough }) };
+    let st = |world: &'static str, quick: u64, thorough: u64| Stage { world, runs: runs_override(if q { quick } else { thorough }), sweep: false };
     Some(match prop {
         "C13" => vec![st("parser", 1_000_000, 20_000_000)],
         "C14" => vec![st("parser", 1_000_000, 20_000_000)],
+        "C15" | "C11" => {
+            let sweep_len = <crate::worlds::byvalue::ByValueWorld as World>::sweep_len();
+            vec![Stage { world: "byvalue", runs: sweep_len, sweep: true }, st("byvalue", 600_000, 12_000_000)]
+        }
         "C07" => vec![st("chars", 2_000_000, 40_000_000)],
         "C06" => vec![st("splits", 2_000_000, 40_000_000)],
         "C09" => vec![
@@ -128,6 +138,8 @@ pub struct PropInfo {
 }
 
 const RULE_COMMON: &str = "Cases are (world setup, operation plan) pairs drawn by the seeded planner from VERIF_SEED (run seed = mix(VERIF_SEED, world/property label, run index); xoshiro256**), the plan being generated from the seed and the reference model only. A run is NON-TRIVIAL when it has >= 3 state-changing steps and at least one of: a change of working end (front/back) on a handle, a fork (copy) of a handle, a failing operation (Err/None/modelled panic), a fired fault. Runs are DISTINCT when the 64-bit fingerprint of their whole sequence of (operation kind, abstract pre-state, outcome kind) differs; distinct_nontrivial is the size of the union of those fingerprint sets over all worker processes (each worker's set is capped at 2^22 entries, so the count is conservative).";
+
+const RULE_BYVALUE: &str = "Two stages. (1) FAULT SWEEP, enumerated completely: for every N in {0,1,2,3,5,8}, every fault site (Tok::clone inside ArrayConsumer::clone / ArrayBuilder::clone, Tok::drop inside the two Drop impls, the closure of map_! (3 closures), from_fn_!, map!, from_fn! with panic / break / continue / return) and every callback index k in 1..=N+1 (k=N+1: armed but cannot fire), plus the three misuse panics, one short scenario (consumer half-taken from both ends, builder half-filled). (2) SEEDED HISTORIES: operation plans over up to 6 live containers and a pool of caller-held tokens, drawn from VERIF_SEED by the planner from the model only; a third of the runs are fault-free, the others arm 1-3 faults. A run is NON-TRIVIAL when it has >= 3 state-changing steps and at least one failing operation (modelled panic / None / early return) or fired fault; runs are DISTINCT by the 64-bit fingerprint of their sequence of (operation kind, live-object count, held count, outcome kind); distinct_nontrivial is the measured size of the union of those fingerprint sets.";
 
 pub fn prop_info(prop: &str) -> PropInfo {
     let parser_real = json!({
@@ -208,6 +220,23 @@ pub fn prop_info(prop: &str) -> PropInfo {
                 "rev() is compared on fresh iterators only (split(t,d).rev() == rsplit(t,d) and vice versa); mixed next/next_back on one Split has no std counterpart for str delimiters and is only executed for C01's invariants",
                 "empty pieces/remainders are compared by emptiness only (konst returns a static \"\" once finished)",
                 "seeded sampling: a clean batch is evidence, not proof",
+            ],
+        },
+        "C15" | "C11" => PropInfo {
+            level: if prop == "C15" { "fault_enumeration" } else { "exploration" },
+            rule: RULE_BYVALUE,
+            real_vs_stub: json!({
+                "real_code": ["konst::array::ArrayConsumer<T,N> (new, empty, next, next_back, as_slice, as_mut_slice, clone, copy, Debug, assert_is_empty, Drop)", "konst::array::ArrayBuilder<T,N> (new, push, len, is_full, as_slice, as_mut_slice, clone, copy, Debug, build, infer_length_from_consumer, Drop)", "konst::array::{map_!, from_fn_!, map!, from_fn!} with closures that panic / break / continue / return at the k-th call", "konst::destructure! on 18 fixed shapes (tuples 1,2,3,6,16; arrays with prefix/rest/suffix/_/..; braced, tuple, generic, packed, ZST-field structs; path and type forms)"],
+                "reference_models": ["VecDeque<id> per consumer, Vec<id> per builder/array, caller-held list, allowed drop-count range per token id (drop/move ledger)"],
+                "instrumented_stand_ins": ["element types Tok (id, canary, id-derived payload; Clone/Drop record in a thread-local ledger and can be armed to panic at the k-th call), ZTok (zero-sized, counts only), u32 (copy())", "the closures handed to the macros"],
+                "stubs": [],
+            }),
+            assumptions: vec![
+                "on a path that does not run to completion (injected panic, early exit, misuse panic) tokens held inside konst at that instant may be dropped 0 or 1 times (the property only forbids leaks on completing paths); they must never be dropped twice; every token not held by konst at the fault must be exactly as the model says",
+                "drop ORDER inside a container's Drop and panic MESSAGES are not compared",
+                "`continue` inside map!/from_fn! closures is excluded (documented infinite loop)",
+                "C11: the collect_const! clause is NOT decided (it expands to const items evaluated by rustc; nothing of it executes in a simulated run)",
+                "histories are sampled; the fault sweep stage enumerates every (site, N, callback index k in 1..=N+1) cell completely for N in {0,1,2,3,5,8}",
             ],
         },
         _ => PropInfo { level: "exploration", rule: RULE_COMMON, real_vs_stub: json!({}), assumptions: vec![] },
